@@ -159,6 +159,10 @@ fn merr_str(e: &MuxerError) -> String {
             // exercise the (unmodelled) text paths as well
             let _ = format!("{} {:#}", error, error);
             let _ = error.to_json();
+            let _ = error.to_json_compact();
+            let _ = error.is_critical();
+            let _ = error.all_errors().len();
+            let _ = format!("{:?}", error);
             format!("InvalidAdtsDetailed {:x} {:?}", frame_index, error.kind)
         }
         InvalidOpusPacket { frame_index } => format!("InvalidOpusPacket {:x}", frame_index),
